@@ -136,7 +136,11 @@ pub async fn drive_random(sim: &mut Sim, ad: &mut dyn Adapter, rng: &mut Rng, p:
             }
             4 => {
                 let d = 1 + rng.below(p.max_adv as usize) as u64;
-                sim.advance(d).await;
+                if p.lazy && !flagged.is_empty() {
+                    sim.advance_lazy(d).await;
+                } else {
+                    sim.advance(d).await;
+                }
                 // spinners are re-polled by a real executor right away; state_changed() made them stale
             }
             _ => {
@@ -233,6 +237,10 @@ pub async fn drive_schedule(sim: &mut Sim, ad: &mut dyn Adapter, evs: &[Value], 
                 for c in zs {
                     sim.reap(c).await;
                 }
+            }
+            "advance" if ev.get("lazy").and_then(|x| x.as_bool()) == Some(true) => {
+                // late-polling executor: time passes although somebody is runnable
+                sim.advance_lazy(geti(ev, "d").unwrap_or(1)).await;
             }
             "advance" => {
                 // urgency: everything runnable is polled before time passes
